@@ -50,7 +50,7 @@ def observe(cid, body, entry="file"):
     """entry: "file" (the whole chart through Chart.from_file) or the name of an iterable kind (the [Song] body handed to
     the public section-level entry point Metadata.from_chart_lines as that kind of Iterable[str])."""
     rec = {"id": cid, "props": ["C10"], "kind": "song", "lines": [cps("  " + b) for b in body], "text": body, "raised": "", "obs": {},
-           "entry": entry}
+           "entry": entry, "again_same": True}
     for f in FIELDS:
         rec["obs"]["f_" + f] = ["none"]
     if entry == "file":
@@ -63,10 +63,21 @@ def observe(cid, body, entry="file"):
         from common import load_impl
         load_impl()
         from chartparse.metadata import Metadata
+        arg = _as_iterable(["  " + b for b in body], entry)
         try:
-            m = Metadata.from_chart_lines(_as_iterable(["  " + b for b in body], entry))
+            m = Metadata.from_chart_lines(arg)
         except Exception as e:  # noqa: BLE001
             rec["raised"] = type(e).__name__
+            m = None
+        if entry in ("list", "tuple", "deque", "dict-keys"):
+            # a container can be read again: the SAME object decoded a second time (the caller did nothing to it in between)
+            # must decode to the same fields - the lines are the caller's, not the library's to consume
+            try:
+                m2 = Metadata.from_chart_lines(arg)
+                rec["again_same"] = m is not None and all(getattr(m2, f) == getattr(m, f) and type(getattr(m2, f)) is type(getattr(m, f)) for f in FIELDS)
+            except Exception as e:  # noqa: BLE001
+                rec["again_same"] = m is None and type(e).__name__ == rec["raised"]
+        if m is None:
             return rec
     for f in FIELDS:
         v = getattr(m, f)
